@@ -2,6 +2,7 @@ package props
 
 import (
 	"fmt"
+	"go/token"
 	"sort"
 	"strings"
 
@@ -340,6 +341,10 @@ func keepConditions(fn *ssa.Function) []string {
 				continue
 			}
 			truth := p.Succs[0] == b
+			if exp, ok := expandBoolHelper(ifi.Cond, truth); ok {
+				out = append(out, exp...)
+				continue
+			}
 			for _, a := range an.CondAtoms(ifi.Cond, truth) {
 				out = append(out, tempName.ReplaceAllString(a.String(), ""))
 			}
@@ -398,4 +403,52 @@ func c17WriteSets(c *an.Ctx) {
 		c.Check(len(set) == 1 && set[0] == "actions", "R6", "ClearDisruptiveActions writes only the action list", cd.Pos(), "writes "+strings.Join(set, ", "),
 			"ClearDisruptiveActions writes "+strings.Join(set, ", ")+": an action update also changes other properties of the rule (e.g. its status), unlike the same rule written with the new actions")
 	}
+}
+
+// expandBoolHelper: cond is (the negation of) a call to a private bool function of the module with a body;
+// returns the conditions under which that function answers `truth`: for a constant return the facts of its
+// block, for a computed return the atoms of the returned expression.  This lets a keep/skip predicate that was
+// extracted into a helper be read like the inline test.
+func expandBoolHelper(cond ssa.Value, truth bool) ([]string, bool) {
+	if u, ok := cond.(*ssa.UnOp); ok && u.Op == token.NOT {
+		cond, truth = u.X, !truth
+	}
+	call, ok := cond.(*ssa.Call)
+	if !ok || call.Call.IsInvoke() {
+		return nil, false
+	}
+	h := call.Call.StaticCallee()
+	if h == nil || len(h.Blocks) == 0 || h.Pkg == nil || !strings.HasPrefix(h.Pkg.Pkg.Path(), an.ModPath) || token.IsExported(h.Name()) {
+		return nil, false
+	}
+	if h.Signature.Results().Len() != 1 || h.Signature.Results().At(0).Type().String() != "bool" {
+		return nil, false
+	}
+	var out []string
+	okAll := true
+	an.Instrs(h, func(in ssa.Instruction) {
+		r, isR := in.(*ssa.Return)
+		if !isR {
+			return
+		}
+		if cst, isC := r.Results[0].(*ssa.Const); isC {
+			if (an.Expr(cst) == "true") == truth {
+				for _, a := range an.FactsAtBlock(r.Block()) {
+					out = append(out, tempName.ReplaceAllString(a.String(), ""))
+				}
+			}
+			return
+		}
+		if _, isPhi := r.Results[0].(*ssa.Phi); isPhi {
+			okAll = false
+			return
+		}
+		for _, a := range an.CondAtoms(r.Results[0], truth) {
+			out = append(out, tempName.ReplaceAllString(a.String(), ""))
+		}
+	})
+	if !okAll || len(out) == 0 {
+		return nil, false
+	}
+	return out, true
 }
